@@ -201,6 +201,8 @@ def pytype(ctx, f, t, depth=0):
             if x[0] == 'call' and call_name(x) and call_name(x).startswith('numpy.'):
                 return 'np'
         return None
+    if k == 'v' and t[2] == 'P' and t[1] in ('vt_length', 'observed_length', 'bit_length', 'dna_length', 'heap_size'):
+        return 'int'        # documented as int in the public signatures
     if k == 'v':
         alts = f.alternatives(t)
         if alts:
